@@ -245,6 +245,8 @@ where
     /// Closes the connection by transitioning to a GOAWAY state
     /// iff there are no streams or references
     pub fn maybe_close_connection_if_no_streams(&mut self) {
+        #[cfg(feature = "verif-hooks")]
+        crate::verif::ev("conn.maybe_close_enter", Vec::new);
         // If we poll() and realize that there are no streams or references
         // then we can close the connection by transitioning to GOAWAY
         if !self.inner.streams.has_streams_or_other_references() {
